@@ -17,13 +17,13 @@ VERIF = core.VERIF
 def main():
     pid, x, needs = sys.argv[1], sys.argv[2].lower(), sys.argv[3]
     X = x.upper()
-    W = '/tmp/seed-%s' % pid
+    W = '%s-%s' % (os.environ.get('SEED_PREFIX', '/tmp/seed'), pid)
     ver = open(os.path.join(W, 'out', 'verify_%s.txt' % x)).read()
     flags = dict(re.findall(r'^(\w+)=(.*)$', ver, re.M))
     results = re.findall(r'^test result: (.*)$', ver, re.M)
     confirmed = (flags.get('PRISTINE_DEMO') == 'pass' and flags.get('BUILD') == 'ok' and flags.get('PATCHED_DEMO', '').startswith('fails')
                  and len(results) == 3 and all(r.startswith('ok') for r in results))
-    sid = '%s-%s' % (pid, x)
+    sid = '%s-%s' % (pid, os.environ.get('SEED_SUFFIX_' + X, x))
     d = os.path.join(VERIF, 'seeded', sid)
     os.makedirs(d, exist_ok=True)
     patch = os.path.join(W, 'out', 'patch%s.diff' % X)
